@@ -549,11 +549,12 @@ class Closing(State):
                 return
 
         #: A peer that keeps the connection but never answers the DPR is not
-        #: waited for beyond the watchdog timeout.
-        self.waiting_time = getattr(self, "waiting_time", 0) + \
-                            STATE_MACHINE_TICKER
+        #: waited for beyond the watchdog timeout (elapsed time: ticks get
+        #: longer on a busy machine).
+        now = time.monotonic()
+        self.waiting_since = getattr(self, "waiting_since", now)
 
-        if self.waiting_time >= self.association.watchdog_timeout:
+        if now - self.waiting_since >= self.association.watchdog_timeout:
             self.event_timeout()
 
 
